@@ -453,7 +453,9 @@ class AbsInt:
         if isinstance(f, ast.Attribute) and isinstance(f.value, ast.Name) and f.value.id == "self" and "self" not in ctx.env and self.follow_self_method(f.attr):
             impls = self._self_impls(ctx.fi, f.attr)
             if impls:
-                return self.join([self.eval_function(m, c, args, kwargs, ctx, skip_first=True) for m in impls])
+                def is_static(m):
+                    return any(isinstance(d, ast.Name) and d.id == "staticmethod" for d in m.node.decorator_list)
+                return self.join([self.eval_function(m, c, args, kwargs, ctx, skip_first=not is_static(m)) for m in impls])
         if isinstance(f, ast.Attribute):
             recv = self.ev(f.value, ctx)
             return self.call_method(recv, f.attr, c, args, kwargs, ctx)
